@@ -16,9 +16,15 @@ ASSUMPTIONS = ["duties are evaluated on runs with tol_T=1e-7; identities to 1e-6
 def tie(ctx):
     kbad, kstats = kernel_selfcheck.run(ctx.seed, ctx.budget(1500, 30000))
     keep = ("thermalBranch",)
-    return {"cases": sum(v["inputs"] for k, v in kstats.items() if k.startswith(keep)),
-            "disagreements": [b for b in kbad if b.get("kernel", "").startswith(keep)],
-            "stats": {k: v for k, v in kstats.items() if k.startswith(keep)}}
+    # the heat-consumer class methods (duty / mass-flow derivation per mode) as generated models vs the real class methods
+    cbad, cstats = kernel_selfcheck.run_components(ctx.seed, ctx.budget(400, 8000))
+    ckeep = ("hc", "components")
+    return {"cases": sum(v["inputs"] for k, v in kstats.items() if k.startswith(keep)) +
+                     sum(v["inputs"] for k, v in cstats.items() if k.startswith(ckeep)),
+            "disagreements": [b for b in kbad if b.get("kernel", "").startswith(keep)] +
+                             [b for b in cbad if b.get("kernel", "").startswith(ckeep)],
+            "stats": dict({k: v for k, v in kstats.items() if k.startswith(keep)},
+                          **{k: v for k, v in cstats.items() if k.startswith(ckeep)})}
 
 
 def gen(rng):
